@@ -23,10 +23,12 @@ type inlCtx struct {
 	changed  bool
 	resultsN []int // result counts of the enclosing functions (declaration, then literals)
 	names    map[string]bool
+	root     ast.Node // the declaration being rewritten (function, or package-level variable declaration)
+	rootName string
 }
 
 func (n *normalizer) rewriteFunc(pkg *packages.Package, file *ast.File, fd *ast.FuncDecl) bool {
-	c := &inlCtx{n: n, pkg: pkg, info: pkg.TypesInfo, file: file, fd: fd}
+	c := &inlCtx{n: n, pkg: pkg, info: pkg.TypesInfo, file: file, fd: fd, root: fd, rootName: declName(fd)}
 	c.self, _ = pkg.TypesInfo.Defs[fd.Name].(*types.Func)
 	c.names = map[string]bool{}
 	identNames(fd, c.names)
@@ -36,6 +38,27 @@ func (n *normalizer) rewriteFunc(pkg *packages.Package, file *ast.File, fd *ast.
 	}
 	c.resultsN = []int{nres}
 	fd.Body.List = c.list(fd.Body.List)
+	return c.changed
+}
+
+// rewriteVarDecl: the initialisers of a package-level variable declaration (function values in tables, literals).
+func (n *normalizer) rewriteVarDecl(pkg *packages.Package, file *ast.File, gd *ast.GenDecl) bool {
+	c := &inlCtx{n: n, pkg: pkg, info: pkg.TypesInfo, file: file, root: gd, rootName: "package-level variable"}
+	c.names = map[string]bool{}
+	identNames(gd, c.names)
+	c.resultsN = []int{0}
+	for _, sp := range gd.Specs {
+		vs, ok := sp.(*ast.ValueSpec)
+		if !ok {
+			continue
+		}
+		if len(vs.Names) > 0 {
+			c.rootName = "var " + vs.Names[0].Name
+		}
+		for i := range vs.Values {
+			vs.Values[i] = c.exprRewrite(vs.Values[i])
+		}
+	}
 	return c.changed
 }
 
@@ -125,7 +148,7 @@ func (c *inlCtx) skip(at ast.Node, f *Func, why string) {
 
 func (c *inlCtx) done(at ast.Node, f *Func, how string) {
 	c.changed = true
-	c.n.lg.Inlined = append(c.n.lg.Inlined, fmt.Sprintf("%s: %s into %s (%s)", c.n.w.Pos(at.Pos()), f.Name, declName(c.fd), how))
+	c.n.lg.Inlined = append(c.n.lg.Inlined, fmt.Sprintf("%s: %s into %s (%s)", c.n.w.Pos(at.Pos()), f.Name, c.rootName, how))
 }
 
 // ---------------------------------------------------------------------------------------------------------------------
@@ -422,7 +445,7 @@ func (c *inlCtx) stable(id *ast.Ident) bool {
 			return false
 		}
 		writes := 0
-		ast.Inspect(c.fd, func(n ast.Node) bool {
+		ast.Inspect(c.root, func(n ast.Node) bool {
 			switch x := n.(type) {
 			case *ast.AssignStmt:
 				for _, l := range x.Lhs {
